@@ -5707,6 +5707,8 @@ class CodegenCtx:
                         counter_val = len(out_expr.default_value)
                     contents.add("// initialize append counter for", out_expr.name)
                     contents.add(f"state->{out_expr.name}_counter = {counter_val};")
+                    if out_expr.holds_a(OutputStorageType.STR) and out_expr.str_null and out_expr.default_value is None and not self._is_dynamic(out_expr):
+                        contents.add(f"state->c.{out_expr.name}[0] = 0;")
                 if out_expr.default_value is not None:
                     contents.add("// initialize default for", out_expr.name)
                     if out_expr.holds_buflike():
